@@ -173,10 +173,16 @@ def run_bounded(prop, tier, seed):
             json.dump({'Replace': {target: os.path.join(VERIF, b['file'])}}, f)
         env = dict(os.environ)
         env.update({'GOFLAGS': '-mod=mod', 'GOPROXY': 'off', 'VERIF_BOUNDED_ITERS': str(iters), 'VERIF_SEED': str(seed)})
+        # known findings of this stand-in (known_findings.json, status known, `bounded` = its name):
+        # the harness goes on past an input of a listed class (printing KNOWN-HIT <key> ...) and
+        # still fails on anything else
+        kfs = [k for k in load_known() if k.get('status') == 'known' and k.get('bounded') == b['name']
+               and (k.get('property') == prop or prop in (b.get('also') or []))]
+        env['VERIF_KNOWN'] = ','.join(k['key'] for k in kfs)
         env.pop('GOTOOLCHAIN', None)
         env.pop('GOSUMDB', None)
         t0 = time.time()
-        cmd = ['go', 'test', '-overlay', ov, '-vet=off', '-count=1', '-timeout', '%ds' % b.get('timeout_s', 600),
+        cmd = ['go', 'test', '-overlay', ov, '-vet=off', '-v', '-count=1', '-timeout', '%ds' % b.get('timeout_s', 600),
                '-run', b['run'], './' + b['pkg'] + '/']
         import subprocess
         pr = subprocess.run(cmd, cwd=REPO, env=env, capture_output=True, text=True)
@@ -187,6 +193,11 @@ def run_bounded(prop, tier, seed):
                  'bound': b['bound'], 'iterations': iters, 'seed': seed, 'seconds': dt,
                  'result': 'passed' if pr.returncode == 0 and ran else 'failed', 'cmd': ' '.join(cmd)}
         ev.append(entry)
+        for k in kfs:
+            hits = [l.strip() for l in out.split('\n') if ('KNOWN-HIT ' + k['key']) in l]
+            if hits:
+                entry.setdefault('known_findings_hit', []).append({'id': k.get('id'), 'key': k['key'], 'first': hits[0][-300:], 'count': len(hits)})
+                lines.append('KNOWN-FINDING: property=%s %s (bounded.%s: %s)' % (prop, k['what'], b['name'], k['key']))
         if pr.returncode != 0 or not ran:
             rp = os.path.join(WORK, 'replay', prop)
             os.makedirs(rp, exist_ok=True)
@@ -327,7 +338,8 @@ def main(argv):
         lines.append(line)
     bounded_ev, bviol, blines = run_bounded(prop, _TIER, _SEED)
     violations += bviol
-    lines += blines
+    kf_lines += [l for l in blines if l.startswith('KNOWN-FINDING:')]
+    lines += [l for l in blines if not l.startswith('KNOWN-FINDING:')]
     for l in kf_lines:
         print(l)
     for l in lines:
